@@ -450,6 +450,81 @@ def sub_concat(case):
 SUBS = {'build': sub_build, 'concat': sub_concat, 'cs': sub_cs, 'cs_nonminimal': sub_cs_nonminimal, 'varstr': sub_varstr, 'num': sub_num,
         'numdec': sub_numdec, 'pack': sub_pack, 'script': sub_script}
 
+# ---- a failed call must not change what later calls answer
+AF_CALLS = ['serialize', 'as_bytes', 'as_hex', 'raw', 'hash', 'add_right']
+
+
+def _af_items(shape):
+    big = b'\x0b' * 70000            # cannot be pushed by the library (refused)
+    small = b'\x0c' * 520
+    return {'big_last': [0x51, big], 'big_first': [big, 0x51], 'big_middle': [0x51, big, 0x52], 'data_then_big': [b'\x01\x02', big],
+            'list_item': [0x00, b'\x05' * 71, [0x51, b'\x02' * 33, 0x51, 0xae]], 'two_big': [0x6a, big, big]}[shape], small
+
+
+def _af_call(s, name):
+    from bitcoinlib.scripts import Script
+    try:
+        if name == 'serialize':
+            return ('ok', s.serialize().hex())
+        if name == 'as_bytes':
+            return ('ok', s.as_bytes().hex())
+        if name == 'as_hex':
+            return ('ok', s.as_hex())
+        if name == 'raw':
+            return ('ok', bytes(s.raw).hex())
+        if name == 'hash':
+            hash(s)
+            return ('ok', 'hashed')
+        if name == 'add_right':
+            return ('ok', (s + Script([0x75])).as_bytes().hex())
+    except Exception as e:
+        return ('raise', type(e).__name__)
+    raise ValueError(name)
+
+
+def sub_afterfail(case):
+    """case = {'shape': name}: a Script whose serialization is refused (an item that cannot be pushed).  For every
+    ordered pair of calls (c1, c2): c2 after c1 on one object must answer exactly what c2 answers on a fresh object
+    (differential oracle: a failed call leaves nothing behind); after the offending item is replaced, every accessor
+    of the object that failed before must give the reference bytes of the repaired command list."""
+    from bitcoinlib.scripts import Script
+    devs, outs = [], []
+    items, small = _af_items(case['shape'])
+    n = 0
+    for c1 in AF_CALLS:
+        for c2 in AF_CALLS:
+            a = Script(commands=list(items))
+            r1 = _af_call(a, c1)
+            r2 = _af_call(a, c2)
+            b = Script(commands=list(items))
+            f2 = _af_call(b, c2)
+            n += 1
+            outs.append('%s_then_%s' % (r1[0], r2[0]))
+            if r2 != f2:
+                devs.append({'sig': 'afterfail|%s_after_%s_%s_differs_from_fresh_object' % (
+                    c2, 'failed' if r1[0] == 'raise' else 'successful', c1),
+                    'detail': {'shape': case['shape'], 'after': str(r2)[:120], 'fresh': str(f2)[:120], 'first': str(r1)[:60]}})
+        # repair: the offending items are replaced in the command list of the object that failed
+        a = Script(commands=list(items))
+        r1 = _af_call(a, c1)
+        if r1[0] == 'raise':
+            rep = [small if (isinstance(x, (bytes, list)) and (isinstance(x, list) or len(x) > 65535)) else x for x in items]
+            a.commands[:] = rep
+            want = b''.join(bytes([x]) if isinstance(x, int) else codec.push(x) for x in rep).hex()
+            for c2 in ('serialize', 'as_bytes', 'as_hex'):
+                n += 1
+                got = _af_call(Script(commands=list(rep)) if False else a, c2)
+                if got != ('ok', want):
+                    devs.append({'sig': 'afterfail|%s_after_failed_%s_and_repair_is_not_the_script' % (c2, c1),
+                                 'detail': {'shape': case['shape'], 'got': str(got)[:120], 'expected_len': len(want) // 2}})
+                a = Script(commands=list(items))
+                _af_call(a, c1)
+                a.commands[:] = rep
+    return {'devs': devs, 'n': n, 'out': outs}
+
+
+SUBS['afterfail'] = sub_afterfail
+
 
 def _ranges(lo, hi, step=4096):
     return [[a, min(a + step, hi)] for a in range(lo, hi, step)]
@@ -508,6 +583,8 @@ def run(ctx):
     modes = ('built', 'built_serialized', 'parsed')
     ctx.pmap('concat', [{'a': a, 'b': b, 'ma': ma, 'mb': mb} for a in parts for b in parts for ma in modes for mb in modes
                         if a or b])
+    ctx.pmap('afterfail', [{'shape': x} for x in ('big_last', 'big_first', 'big_middle', 'data_then_big', 'list_item',
+                                                   'two_big')])
     names = [n for n in names_all if n != 'p0']      # on the wire the empty item IS OP_0
     L = 3 if q else 4
     if q:
